@@ -494,12 +494,20 @@ func signL17On[P curves.Point[P, B, S], B algebra.PrimeFieldElement[B], S algebr
 	if d.std != nil {
 		shift += 4
 	}
-	for _, it := range planCostly(2, shift) {
+	items := planCostly(2, shift)
+	dkgPolicy := "" // quick tier: the first policy of the plan with at most three holders gets its key from the Lindell17 DKG
+	for _, it := range items {
+		if len(it.np.Pol.IDs) <= 3 && it.q.kind != "unqualified" {
+			dkgPolicy = it.np.Name
+			break
+		}
+	}
+	for _, it := range items {
 		pi, qi := it.pi, it.qi
 		// the Lindell17 DKG (Paillier keys, LP / LPDL proofs for every MSP row and peer) costs tens of seconds: one policy per curve in
 		// the quick tier, every second policy of at most four holders in the thorough tier; the other keys come from the
 		// Lindell17 trusted dealer
-		viaDKG := pi == 0 && len(it.np.Pol.IDs) <= 3 && d.std == nil
+		viaDKG := it.np.Name == dkgPolicy && d.std == nil
 		if thor {
 			viaDKG = pi%2 == 0 && len(it.np.Pol.IDs) <= 4
 		}
